@@ -7,6 +7,7 @@ import (
 	"fmt"
 	"math"
 	"math/rand"
+	"sync"
 
 	"github.com/LiskHQ/lisk-engine/pkg/codec"
 	"github.com/LiskHQ/lisk-engine/pkg/trie/rmt"
@@ -16,18 +17,32 @@ import (
 	"verifharness/internal/mon"
 )
 
-type mapDB struct{ m map[string][]byte }
+// mapDB is a concurrency-safe in-memory store (smt.Update writes from several goroutines).
+type mapDB struct {
+	mu sync.Mutex
+	m  map[string][]byte
+}
 
 func newMapDB() *mapDB { return &mapDB{m: map[string][]byte{}} }
 func (d *mapDB) Get(k []byte) ([]byte, bool) {
+	d.mu.Lock()
+	defer d.mu.Unlock()
 	v, ok := d.m[string(k)]
 	if !ok {
 		return nil, false
 	}
 	return append([]byte(nil), v...), true
 }
-func (d *mapDB) Set(k, v []byte) { d.m[string(k)] = append([]byte(nil), v...) }
-func (d *mapDB) Del(k []byte)    { delete(d.m, string(k)) }
+func (d *mapDB) Set(k, v []byte) {
+	d.mu.Lock()
+	d.m[string(k)] = append([]byte(nil), v...)
+	d.mu.Unlock()
+}
+func (d *mapDB) Del(k []byte) {
+	d.mu.Lock()
+	delete(d.m, string(k))
+	d.mu.Unlock()
+}
 
 func cpb(b []byte) []byte { return append([]byte{}, b...) }
 
@@ -98,7 +113,7 @@ func smtCase(r *rand.Rand) (keyLen int, queryKeys [][]byte, proof *smt.Proof, ro
 }
 
 func trieStreams(c *mon.Ctx, h *hostile.Harness) {
-	c.Cases("smt", c.N(500, 60000), func(k *mon.Case) {
+	c.Cases("smt", c.N(500, 8000), func(k *mon.Case) {
 		r := k.R
 		keyLen, qk, proof, root, err := smtCase(r)
 		if err != nil {
@@ -275,7 +290,7 @@ func trieStreams(c *mon.Ctx, h *hostile.Harness) {
 		}
 	})
 
-	c.Cases("rmt", c.N(600, 80000), func(k *mon.Case) {
+	c.Cases("rmt", c.N(600, 10000), func(k *mon.Case) {
 		r := k.R
 		n := 2 + r.Intn(40)
 		if r.Intn(5) == 0 {
